@@ -87,7 +87,7 @@ def floors(tier):
             'peek_token_does_not_move': 100000, 'next_token_advances': 100000,
             'rewind_checked': 100000, 'end_of_stream_reached': 20000,
             'char_level_calls_checked': 100000, 'resume_from_position_checked': 30000,
-            'token_list_reader_replays': 20000, 'histkeys:config': len(CONFIGS), 'hist:mode:tolerant': 10000, 'hist:mode:strict': 10000}
+            'token_list_reader_replays': 20000, 'rewind_without_pre_space_checked': 50000, 'histkeys:config': len(CONFIGS), 'hist:mode:tolerant': 10000, 'hist:mode:strict': 10000}
 
 
 def setup(rec):
@@ -217,6 +217,25 @@ def second_pass(s, ps, tol, toks, rec):
             rec.monitor('resume_from_position_checked')
             if tokkey(t2) != tokkey(tok):
                 return 'a fresh reader moved to %d reads %r, the first pass read %r there' % (p0, t2, tok)
+        # going back to the token itself (not to the whitespace before it): same token, read without its leading space
+        if i % 3 == 1:
+            tr.move_to_token(pk, rewind_pre_space=False)
+            if tr.cur_pos() != tok.pos:
+                return 'move_to_token(rewind_pre_space=False) went to %r, the token starts at %r' % (tr.cur_pos(), tok.pos)
+            t3 = tr.peek_token_or_none(ps)
+            rec.monitor('rewind_without_pre_space_checked')
+            if t3 is None or (t3.tok, t3.pos, t3.pos_end) != (tok.tok, tok.pos, tok.pos_end) or t3.pre_space != '':
+                # a paragraph break is made of whitespace: read from its own start it is still the same token
+                return 're-read after move_to_token(rewind_pre_space=False) gives %r, first read %r' % (t3, tok)
+        # leaving the token without its trailing whitespace: a macro's post-space is left in the stream
+        if i % 3 == 2:
+            tr.move_past_token(pk, fastforward_post_space=False)
+            want_pos = tok.pos_end - len(getattr(tok, 'post_space', '') or '')
+            if tr.cur_pos() != want_pos:
+                return 'move_past_token(fastforward_post_space=False) left the reader at %r, expected %r (%r)' % (
+                    tr.cur_pos(), want_pos, tok)
+            if s[want_pos:tok.pos_end].strip() != '':
+                return 'post_space %r of %r does not sit at the end of the token span' % (getattr(tok, 'post_space', None), tok)
         tr.move_past_token(pk)
         if tr.cur_pos() != tok.pos_end:
             return 'move_past_token() left the reader at %r, token ends at %r (%r)' % (tr.cur_pos(), tok.pos_end, tok)
